@@ -367,12 +367,15 @@ impl RoomAuthorisations {
             final(entity_to_mutate).edge_deletions_log == old(entity_to_mutate).edge_deletions_log,
     { unimplemented!() }
     // E8 cut: the loop of validate_room_mutation over `&mut insert_entity.sub_nodes` (admin entries, groups; HashMap IterMut).
-    // ASSUMED: only grows `room` through the add_* mutators / validate_authorisation_mutation and reports whether the change
-    // needs the room-admin right.
+    // The BODY of the loop is verified (room_sub_body, rule E14).  ASSUMED: std's IterMut visits every entry once and the loop runs that
+    // body on each, stopping at the first error; the third clause is the composition of the body's postcondition
+    // [no_admin_part_change_without_the_room_admin_right] over the entries (admin_part_same is reflexive and transitive:
+    // L_admin_part_same_composes).
     #[verifier::external_body]
     pub fn cut_room_sub_nodes(&self, sub_nodes: &mut HashMap<String, Vec<InsertEntity>>, room: &mut Room, verifying_key: &Vec<u8>) -> (r: Result<bool>)
         ensures final(room).id == old(room).id,
-            r is Ok ==> r->Ok_0 == room_change_needs_admin(*old(sub_nodes), *old(room), *verifying_key)
+            r is Ok ==> r->Ok_0 == room_change_needs_admin(*old(sub_nodes), *old(room), *verifying_key),
+            r is Ok && !r->Ok_0 ==> admin_part_same(*old(room), *final(room)),
     { unimplemented!() }
 }
 
@@ -805,6 +808,9 @@ impl Room {
             // [room_change_needing_admin_checked_on_result]{C01} when the sub-entities demand the room-admin right, the caller must be an admin of the RESULTING definition at the operation's date
             r is Ok && r->Ok_0 is Some ==> exists|room_before: Room| room_before.id == r->Ok_0->Some_0.id
                 && (room_change_needs_admin(old(insert_entity).sub_nodes, room_before, *verifying_key) ==> spec_is_admin(r->Ok_0->Some_0, *verifying_key, old(insert_entity).node_to_mutate.date)),
+            // [room_change_by_a_non_admin_leaves_the_admin_part]{C01} a mutation of an existing room by a caller who is not an admin of the resulting definition at the operation's date changed neither the admin list nor the rights or the user admins of any group of the stored definition
+            r is Ok && r->Ok_0 is Some && old(insert_entity).node_to_mutate.old_node is Some && !spec_is_admin(r->Ok_0->Some_0, *verifying_key, old(insert_entity).node_to_mutate.date)
+                ==> admin_part_same(self.rooms@[old(insert_entity).node_to_mutate.old_node->Some_0.id], r->Ok_0->Some_0),
             // [room_rows_carry_no_room_id]{C01} a new room row never claims to live in another room
             r is Ok && r->Ok_0 is Some && old(insert_entity).node_to_mutate.old_node is None ==> old(insert_entity).node_to_mutate.room_id is None,
             // [no_reference_removal_on_rooms]{C01} references of a room (admins, groups) are never removed
@@ -1251,6 +1257,100 @@ pub open spec fn auth_loop_inv(g0: Authorisation, g: Authorisation, need_room_ad
             r is Ok ==> old(insert_entity).node_to_mutate.room_id is None && old(insert_entity).edge_deletions@.len() == 0,
             // [group_of_another_room_never_adopted]{C01} a group this room does not hold is accepted only as a NEW group (a row that did not exist before): an existing group row - a group of another room - is never changed through this room
             r is Ok && !old(room).authorisations@.contains_key(old(insert_entity).node_to_mutate.id) ==> old(insert_entity).node_to_mutate.old_node is None,
+//@ end
+// ================================================================= the body of the sub-entity loop of a room mutation (C01, C10)
+// The loop `for entry in &mut insert_entity.sub_nodes` of validate_room_mutation is a cut there (HashMap IterMut has no Verus model);
+// its body - what is done with ONE field of the room mutation - is verified here (rule E14).
+//@ use-contract u1_room.rs :: Room::add_admin_user
+pub open spec fn rights_or_empty(r: Room, id: Uid) -> Map<String, Vec<EntityRight>> { if r.authorisations@.contains_key(id) { r.authorisations@[id].rights@ } else { Map::empty() } }
+pub open spec fn user_admins_or_empty(r: Room, id: Uid) -> Map<Vec<u8>, Vec<User>> { if r.authorisations@.contains_key(id) { r.authorisations@[id].user_admins@ } else { Map::empty() } }
+/// what may NOT change without the room-admin right: the admin list, and the rights and user admins of every group (a group that did
+/// not exist counts as empty)
+pub open spec fn admin_part_same(r0: Room, r1: Room) -> bool {
+    r1.admins == r0.admins && r1.id == r0.id
+    && (forall|id: Uid| #[trigger] r0.authorisations@.contains_key(id) ==> r1.authorisations@.contains_key(id))
+    && forall|id: Uid| #[trigger] r1.authorisations@.contains_key(id) ==> r1.authorisations@[id].rights@ == rights_or_empty(r0, id) && r1.authorisations@[id].user_admins@ == user_admins_or_empty(r0, id)
+}
+/// what the assumed composition of the loop body over the entries of a room mutation rests on
+proof fn L_admin_part_same_composes(r0: Room, r1: Room, r2: Room)
+    ensures admin_part_same(r0, r0), admin_part_same(r0, r1) && admin_part_same(r1, r2) ==> admin_part_same(r0, r2),
+{
+    if admin_part_same(r0, r1) && admin_part_same(r1, r2) {
+        assert forall|id: Uid| #[trigger] r2.authorisations@.contains_key(id) implies r2.authorisations@[id].rights@ == rights_or_empty(r0, id) && r2.authorisations@[id].user_admins@ == user_admins_or_empty(r0, id) by {
+            if r1.authorisations@.contains_key(id) { } else { assert(!r0.authorisations@.contains_key(id)); }
+        }
+        assert forall|id: Uid| #[trigger] r0.authorisations@.contains_key(id) implies r2.authorisations@.contains_key(id) by { assert(r1.authorisations@.contains_key(id)); }
+    }
+}
+proof fn lemma_admin_part_step(r0: Room, r1: Room, r2: Room, gid: Uid, key: Vec<u8>, date: i64)
+    requires
+        admin_part_same(r0, r1),
+        r2.admins == r1.admins && r2.id == r1.id && r2.authorisations@.contains_key(gid),
+        exists|g0: Authorisation| group_before(r1, gid, g0) && group_extends(g0, r2.authorisations@[gid]) && group_change_without_admin_ok(g0, r2.authorisations@[gid], key, date),
+        forall|id: Uid| id != gid ==> (#[trigger] r2.authorisations@.contains_key(id) == r1.authorisations@.contains_key(id)) && (r1.authorisations@.contains_key(id) ==> r2.authorisations@[id] == r1.authorisations@[id]),
+    ensures admin_part_same(r0, r2),
+{
+    let g0 = choose|g0: Authorisation| group_before(r1, gid, g0) && group_extends(g0, r2.authorisations@[gid]) && group_change_without_admin_ok(g0, r2.authorisations@[gid], key, date);
+    assert forall|id: Uid| #[trigger] r2.authorisations@.contains_key(id) implies r2.authorisations@[id].rights@ == rights_or_empty(r0, id) && r2.authorisations@[id].user_admins@ == user_admins_or_empty(r0, id) by {
+        if id == gid {
+            if r1.authorisations@.contains_key(gid) { assert(g0 == r1.authorisations@[gid]); }
+        } else {
+            assert(r1.authorisations@.contains_key(id));
+        }
+    }
+    assert forall|id: Uid| #[trigger] r0.authorisations@.contains_key(id) implies r2.authorisations@.contains_key(id) by {
+        assert(r1.authorisations@.contains_key(id));
+    }
+}
+pub open spec fn subs_keys_ok(l: Seq<InsertEntity>) -> bool { forall|i: int| 0 <= i < l.len() ==> sub_keys_ok((#[trigger] l[i]).sub_nodes@) }
+
+//@ extract src/database/authorisation_service.rs :: impl RoomAuthorisations / fn validate_room_mutation as RoomAuthorisations::room_sub_body
+//@ lift-loop "for entry in &mut insert_entity.sub_nodes" :: fn room_sub_body(&self, entry: (&String, &mut Vec<InsertEntity>), room: &mut Room, verifying_key: &Vec<u8>, need_room_admin: &mut bool) -> (r: Result<()>) tail "Ok(())"
+//@ attr #[verifier::loop_isolation(false)]
+//@ attr #[verifier::exec_allows_no_decreases_clause]
+//@ rewrite E16 "\"sys\.[A-Za-z]+\"\.to_string\(\)" => "fmt_stub()" x*
+//@ rewrite E16 "ROOM_ENT\.to_string\(\)" => "fmt_stub()" x*
+//@ rewrite E9 "need_room_admin = true;" => "*need_room_admin = true;" x*
+//@ rewrite E9 "&mut room, auth" => "room, auth" x1
+//@ rewrite E17 "(?<=for insert_entity in )entry\.1(?= \{)" => "entry.1.iter_mut()" x1
+//@ rewrite E17 "(?<=for auth in )entry\.1(?= \{)" => "entry.1.iter_mut()" x1
+//@ insert body-start
+        broadcast use {lemma_user_rows_step};
+        let ghost l0 = entry.1@;
+        let ghost room0 = *room;
+//@ loop "for insert_entity in" iter iti
+                        invariant
+                            // [admin_entries_demand_the_room_admin_right_whatever_they_are]{C01}
+                            *need_room_admin,
+                            room.id == room0.id, room.authorisations == room0.authorisations,
+                            forall|i: int| 0 <= i < iti.seq().len() ==> *(#[trigger] iti.seq()[i]) == l0[i],
+                            iti.seq().len() == l0.len(),
+                            // [admin_rows_handled_so_far_are_in_the_room]{C10,C01}
+                            user_rows_present(l0, iti.index@ as int, room.admins@),
+//@ loop "for auth in" iter ita
+                        invariant room.id == room0.id, *old(need_room_admin) ==> *need_room_admin,
+                            forall|i: int| 0 <= i < ita.seq().len() ==> *(#[trigger] ita.seq()[i]) == l0[i],
+                            ita.seq().len() == l0.len(),
+                            // [no_admin_part_change_without_the_flag_so_far]{C01}
+                            !*need_room_admin ==> admin_part_same(room0, *room),
+//@ insert before-stmt "let need_mut ="
+                        let ghost r1 = *room; let ghost a0 = *auth;
+//@ insert after-stmt "let need_mut ="
+                        proof { if !need_mut && !*need_room_admin { lemma_admin_part_step(room0, r1, *room, a0.node_to_mutate.id, *verifying_key, a0.node_to_mutate.date); } }
+//@ spec
+        requires
+            entry.0@ == system_entities::ROOM_ADMIN_FIELD@ || entry.0@ == system_entities::ROOM_AUTHORISATION_FIELD@,    // the mutation parser only produces the two list fields of sys.Room
+            entry.0@ == system_entities::ROOM_AUTHORISATION_FIELD@ ==> subs_keys_ok(old(entry.1)@),
+        ensures
+            r is Ok ==> final(room).id == old(room).id,
+            // [room_admin_flag_only_raised] the demand for the room-admin right is never withdrawn
+            *old(need_room_admin) ==> *final(need_room_admin),
+            // [admin_entries_demand_the_room_admin_right]{C01} a room mutation that carries admin entries demands the room-admin right, whatever the entries are
+            r is Ok && entry.0@ == system_entities::ROOM_ADMIN_FIELD@ ==> *final(need_room_admin),
+            // [no_admin_part_change_without_the_room_admin_right]{C01} unless the room-admin right is demanded, this field of the mutation changed neither the admin list nor the rights or the user admins of any group (a new group has none)
+            r is Ok && !*final(need_room_admin) ==> admin_part_same(*old(room), *final(room)),
+            // [every_admin_row_of_a_room_mutation_is_in_the_resulting_room]{C10,C01} lower bound: every admin row the mutation carries was decoded at the row's own date and its entry is in the admin history of the resulting room
+            r is Ok && entry.0@ == system_entities::ROOM_ADMIN_FIELD@ ==> user_rows_present(old(entry.1)@, old(entry.1)@.len() as int, final(room).admins@),
 //@ end
 } // verus!
 fn main() {}
